@@ -225,7 +225,7 @@ theorem deleteBucket_ok {d d' : DB} {p : Path} {n : Bytes} (h : deleteBucket d p
     d' = d.filter (fun q _ => !(p ++ [n]).isPrefixOf q) ∧ ∃ s, d[p ++ [n]]? = some (.bucket s) := by
   unfold deleteBucket at h
   split at h
-  · cases h
+  · split at h <;> cases h
   · cases h
   · rename_i s hs
     cases h
